@@ -43,6 +43,8 @@ type Solver struct {
 	dump      io.Writer
 	bin       string
 	errors    []string
+	onSlow    func(sec float64, r SatResult, bytes int)
+	plain     bool
 }
 
 func NewSolver(tt *TermTable, bin string, timeoutMs int) (*Solver, error) {
@@ -214,17 +216,49 @@ func (s *Solver) Check(conj []*Term, wantModel []*Term) (SatResult, []uint64) {
 		sb.WriteString(c.ref())
 		sb.WriteString(")\n")
 	}
-	sb.WriteString("(check-sat)\n")
+	fp := false
+	for _, c := range live {
+		if c.fp {
+			fp = true
+		}
+	}
+	if fp || strings.Contains(s.bin, "cvc5") || s.plain {
+		sb.WriteString("(check-sat)\n")
+	} else {
+		fmt.Fprintf(&sb, "(check-sat-using (try-for qfaufbv %d))\n", s.timeoutMs)
+	}
 	start := time.Now()
 	s.send(sb.String())
 	res := Unknown
-	line, err := s.readLine()
-	for err == nil && strings.HasPrefix(line, "(error") {
-		s.errors = append(s.errors, line)
-		line, err = s.readLine()
+	type lr struct {
+		l   string
+		err error
+	}
+	ch := make(chan lr, 1)
+	go func() {
+		line, err := s.readLine()
+		for err == nil && strings.HasPrefix(line, "(error") {
+			s.errors = append(s.errors, line)
+			line, err = s.readLine()
+		}
+		ch <- lr{line, err}
+	}()
+	var line string
+	var err error
+	select {
+	case r := <-ch:
+		line, err = r.l, r.err
+	case <-time.After(time.Duration(s.timeoutMs+10000) * time.Millisecond):
+		// the solver ignored its own limit: kill and restart it
+		s.cmd.Process.Kill()
+		<-ch
+		err = fmt.Errorf("hard timeout")
 	}
 	if err != nil {
-		s.errors = append(s.errors, "solver died: "+err.Error())
+		if err.Error() != "hard timeout" {
+			s.errors = append(s.errors, "solver died: "+err.Error())
+		}
+		s.Seconds += time.Since(start).Seconds()
 		s.Close()
 		s.start()
 		s.Queries++
@@ -285,6 +319,9 @@ func (s *Solver) Check(conj []*Term, wantModel []*Term) (SatResult, []uint64) {
 	}
 	s.send("(pop 1)\n")
 	s.Seconds += time.Since(start).Seconds()
+	if s.onSlow != nil && time.Since(start).Seconds() > 2 {
+		s.onSlow(time.Since(start).Seconds(), res, len(sb.String()))
+	}
 	s.Queries++
 	switch res {
 	case Sat:
